@@ -139,8 +139,22 @@ ScaleOk(S, x, d, rc, k) == CPow(x) > 2 \/ (k = CPow(x) /\ Known(x) /\ rc = Impli
 \* "the same dimension (or the documented CGS/SI electromagnetic counterpart)"
 DimOk(din, dout) == dout = din \/ <<din, dout>> \in EMPairs
 
+\* "returns the same physical quantity expressed in S's units": the unit object that comes back must BE the unit its
+\* spelling names in the registry of the quantity that was converted - same scale (lab.scale = observed base_value over the
+\* base_value of the freshly resolved spelling, a rational), same zero point (lab.off; uoff = the returned unit has a zero
+\* point at all, which only a lone atom with a zero point - degC, degF, any prefix - has), same dimensions (lab.dim) - and
+\* the returned numbers read under that spelling must convert back to the original ones (lab.back).  A result that is
+\* (uoff is not judged when the spelling carries a numeric factor: unyt reads 1.0*degC as a product, which has no zero point.)
+\* merely labelled like S's unit (re-homed without its offset, or with the scale another registry gives the symbol) fails.
+HasZeroPoint(x) == Known(x) /\ IsAtomicX(x) /\ Atoms[TheAtom(x)[2]].off
+LabelOk(ox, o) == /\ o.lab.scale = ROne /\ o.lab.off /\ o.lab.dim /\ o.lab.back
+                  /\ ((Known(ox) /\ ~o.coef) => o.uoff = HasZeroPoint(ox))
+
 \* clauses that fail on one observation o of converting unit x into system S.
-\* o = [k: "ok"|"raise"|"noinput"|"nosystem", exc, x, coef, dim, back, si, gbe: [k, x], twice: [k, x, same]]
+\* o = [k: "ok"|"raise"|"noinput"|"nosystem", exc, x, coef, dim, back, si, uoff, lab: [scale, off, dim, back],
+\*      gbe: [k, x], twice: [k, x, same]]
+\* back / si / twice.same are taken on data of the case's value class (float, narrow float, integer, complex): numbers that
+\* lose their imaginary part or their precision on the way do not convert back.
 Clauses(S, x, o) ==
   LET ox == ToSet(o.x) IN
   IF o.k = "raise" THEN (IF o.exc = "UnitsNotReducible" THEN {} ELSE {"RaisesOnlyUnitsNotReducible"})
@@ -149,7 +163,7 @@ Clauses(S, x, o) ==
   ELSE (IF Inside(S, ox, o.dim) /\ ScaleOk(S, ox, o.dim, o.coefr, o.cpow) THEN {} ELSE {"Inside"})
        \cup (IF Known(ox) /\ DimOk(XDim(x), o.dim) /\ XDim(ox) = o.dim THEN {} ELSE {"Dimension"})
        \cup (IF o.back THEN {} ELSE {"ConvertsBack"})
-       \cup (IF o.si THEN {} ELSE {"SameQuantity"})
+       \cup (IF o.si /\ LabelOk(ox, o) THEN {} ELSE {"SameQuantity"})
        \cup (IF o.gbe.k = "ok" /\ ToSet(o.gbe.x) = ox /\ o.gbe.coefr = o.coefr THEN {} ELSE {"AgreesWithBaseEquivalent"})
        \cup (IF o.twice.k = "ok" /\ ToSet(o.twice.x) = ox /\ o.twice.coefr = o.coefr /\ o.twice.same THEN {} ELSE {"Idempotent"})
 =============================================================================
